@@ -40,7 +40,8 @@ L = [
 C = 'import b\nimport a\n\npub fn use_it() {\n  b.twice(1)\n}\n\npub fn again() {\n  a.main()\n}\n'
 
 # coordinates: (name, number of values)
-COORDS = [('a', len(A)), ('b', len(B)), ('l', len(L)), ('c', 2), ('edge', 2), ('bdir', 2)]
+COORDS = [('a', len(A)), ('b', len(B)), ('l', len(L)), ('c', 2), ('edge', 2), ('bdir', 2), ('twin', 2)]
+TWIN = 'pub fn twice(n) {\n  "twin"\n}\n'
 
 
 def render(st):
@@ -50,15 +51,18 @@ def render(st):
              {'id': 2, 'path': '/dep/src/lib.gleam', 'text': L[st['l']], 'root': 1}]
     if st['c']:
         files.append({'id': 3, 'path': '/app/src/c.gleam', 'text': C, 'root': 0})
+    if st.get('twin'):
+        # a second file with the same module name as b (src/b.gleam and test/b.gleam are both `b`): which one an import reaches must not depend on chance
+        files.append({'id': 4, 'path': '/app/test/b.gleam' if st['bdir'] == 0 else '/app/src/b.gleam', 'text': TWIN, 'root': 0})
     roots = [{'path': '/app', 'local': True, 'deps': [1] if st['edge'] else [], 'toml': 100},
              {'path': '/dep', 'local': False, 'deps': [], 'toml': 101}]
     return {'files': files, 'roots': roots}
 
 
-START = [{'a': 0, 'b': 0, 'l': 0, 'c': 0, 'edge': 1, 'bdir': 0},
-         {'a': 3, 'b': 1, 'l': 3, 'c': 1, 'edge': 1, 'bdir': 0},
-         {'a': 2, 'b': 3, 'l': 0, 'c': 1, 'edge': 0, 'bdir': 1},
-         {'a': 4, 'b': 4, 'l': 1, 'c': 0, 'edge': 1, 'bdir': 0}]
+START = [{'a': 0, 'b': 0, 'l': 0, 'c': 0, 'edge': 1, 'bdir': 0, 'twin': 0},
+         {'a': 3, 'b': 1, 'l': 3, 'c': 1, 'edge': 1, 'bdir': 0, 'twin': 0},
+         {'a': 2, 'b': 3, 'l': 0, 'c': 1, 'edge': 0, 'bdir': 1, 'twin': 1},
+         {'a': 4, 'b': 4, 'l': 1, 'c': 0, 'edge': 1, 'bdir': 0, 'twin': 0}]
 
 
 def all_histories(start, n, limit=None, seed=0):
